@@ -175,9 +175,12 @@ int main(int argc, char** argv) {
   if (args.prop != "C19") { fprintf(stderr, "h_cache serves C19 only\n"); return 2; }
   squids::verif::point_hook() = hook;
   bool thorough = c.thorough();
-  int maxops2 = thorough ? 4 : 3, maxops3 = thorough ? 3 : 2, bound = thorough ? 3 : 2;
-  int maxcap = thorough ? 4 : 3;
-  long exec_cap = thorough ? 400000 : 30000;  // executions per configuration before the DFS is cut short
+  // thorough: one more operation per thread for two threads and one more pre-emption everywhere; the depth-first
+  // search of a configuration is cut short (and counted as such) after exec_cap executions - about 1000 executions/s
+  // per process is what the condition-variable hand-over between real threads allows
+  int maxops2 = thorough ? 4 : 3, maxops3 = 2, bound = thorough ? 3 : 2;
+  int maxcap = 3;
+  long exec_cap = thorough ? 4000 : 30000;  // executions per configuration before the DFS is cut short
 
   // ---- configurations: (programs, capacity, prefill)
   struct Config { std::vector<Prog> progs; int cap, prefill; };
@@ -192,7 +195,7 @@ int main(int argc, char** argv) {
       for (size_t a = 0; a < p3.size(); a++) for (size_t b = a; b < p3.size(); b++) for (size_t d = b; d < p3.size(); d++) cfgs.push_back({{p3[a], p3[b], p3[d]}, cap, prefill});
   long NC = (long)cfgs.size();
   long NSEQ = 4 * 2;            // sequential enumeration blocks: capacity x variant
-  long NPCT = c.n(200, 4000);   // random longer programs under PCT schedules
+  long NPCT = c.n(200, 1500);   // random longer programs under PCT schedules
   long NSTRESS = c.n(8, 64);    // real-thread stress runs
   std::set<uint64_t> sched_hashes, final_hashes;
   long total_exec = 0;
